@@ -25,12 +25,13 @@ Qed.
 Lemma should_prune_true : forall lt st cs,
   should_prune lt st cs = Ok true ->
   exists mn mx k v, st_min st = Some mn /\ st_max st = Some mx /\ In (CVal k v) cs /\
-                    (v < conv lt mn \/ conv lt mx < v).
+                    (v < conv lt mn \/ conv lt mx < v) /\ conv lt mn <= conv lt mx.
 Proof.
   intros lt st cs; unfold should_prune.
   destruct (negb (st_max_exact st && st_min_exact st)); [discriminate|].
   destruct (st_min st) as [mn|]; [|discriminate].
   destruct (st_max st) as [mx|]; [|discriminate].
+  destruct (Z.gtb_spec (conv lt mn) (conv lt mx)) as [Hgt|Hle]; [discriminate|].
   intro H. destruct (prune_loop_true _ _ _ _ H) as (k & v & Hin & Hout).
   exists mn, mx, k, v; auto.
 Qed.
@@ -43,7 +44,7 @@ Lemma prune_sound : forall lt o st cs vs,
   forall cell, In cell vs -> ~ passes lt cell cs.
 Proof.
   intros lt o st cs vs Hp Hd Hm cell Hin Hpass.
-  destruct (should_prune_true _ _ _ Hp) as (mn & mx & k & v & Hmn & Hmx & Hc & Hout).
+  destruct (should_prune_true _ _ _ Hp) as (mn & mx & k & v & Hmn & Hmx & Hc & Hout & _).
   destruct (Hpass _ Hc) as (w & k' & Hcell & Heq).
   injection Heq as _ Hv. subst cell v.
   destruct (Hd w Hin) as [Hlo Hhi].
@@ -146,10 +147,117 @@ Proof.
   - vm_compute. reflexivity.
 Qed.
 
-(* ---- and when it does not: deprecated signed-order statistics of a UINT_32 column (DESIGN §5-29).
-   Row group {1, 3000000000, 7}: as INT32 the values are 1, -1294967296, 7, so the deprecated
-   min / max are -1294967296 / 7.  The statistics are correct for the format, the group is pruned
-   for `a = 1`, and the group contains 1. ---- *)
+(* ---- the same-width conversions (i32 <-> u32 / i32, i64 <-> u64 / i64): with the `min > max`
+   guard NO side condition is left.  Bounds of one sign convert monotonically; mixed-sign bounds of
+   the "wrong" order come out as min > max and are rejected. ---- *)
+Lemma pow2_double : forall pb, 0 < pb -> 2 ^ pb = 2 * 2 ^ (pb - 1) /\ 0 < 2 ^ (pb - 1).
+Proof.
+  intros pb Hb. split.
+  - replace pb with (Z.succ (pb - 1)) at 1 by lia. apply Z.pow_succ_r. lia.
+  - apply Z.pow_pos_nonneg; lia.
+Qed.
+
+Lemma mod_native : forall pb z, 0 < pb -> native pb z ->
+  z mod 2 ^ pb = if z <? 0 then z + 2 ^ pb else z.
+Proof.
+  intros pb z Hb Hn. unfold native in Hn. destruct (pow2_double pb Hb) as [Hp Hpos].
+  destruct (Z.ltb_spec z 0) as [Hneg|Hnn].
+  - symmetry. apply Z.mod_unique with (q := -1); lia.
+  - apply Z.mod_small. lia.
+Qed.
+
+Lemma conv_same_width : forall lt pb z, 0 < pb -> lt_bits lt = pb -> native pb z ->
+  conv lt z = if lt_signed lt then z else if z <? 0 then z + 2 ^ pb else z.
+Proof.
+  intros lt pb z Hb Hw Hn. unfold conv. rewrite Hw. destruct (lt_signed lt).
+  - apply wrap_s_id; [exact Hb|exact Hn].
+  - unfold wrap_u. apply mod_native; assumption.
+Qed.
+
+Definition order_of_width (pb : Z) (o : sorder) : Prop := o = OSigned \/ o = OUnsigned pb.
+
+Lemma okey_native : forall pb o z, 0 < pb -> order_of_width pb o -> native pb z ->
+  okey o z = match o with OSigned => z | OUnsigned _ => if z <? 0 then z + 2 ^ pb else z end.
+Proof.
+  intros pb o z Hb [->| ->] Hn; cbn [okey]; [reflexivity|]. apply mod_native; assumption.
+Qed.
+
+Lemma guard_between : forall lt pb o mn mx a,
+  0 < pb -> lt_bits lt = pb -> order_of_width pb o ->
+  native pb mn -> native pb mx -> native pb a ->
+  conv lt mn <= conv lt mx ->
+  okey o mn <= okey o a -> okey o a <= okey o mx ->
+  conv lt mn <= conv lt a <= conv lt mx.
+Proof.
+  intros lt pb o mn mx a Hb Hw Ho Nmn Nmx Na Hg H1 H2.
+  rewrite (okey_native pb o mn Hb Ho Nmn), (okey_native pb o a Hb Ho Na) in H1.
+  rewrite (okey_native pb o a Hb Ho Na), (okey_native pb o mx Hb Ho Nmx) in H2.
+  rewrite (conv_same_width lt pb mn Hb Hw Nmn), (conv_same_width lt pb mx Hb Hw Nmx) in Hg.
+  rewrite (conv_same_width lt pb mn Hb Hw Nmn), (conv_same_width lt pb mx Hb Hw Nmx),
+          (conv_same_width lt pb a Hb Hw Na).
+  unfold native in *. destruct (pow2_double pb Hb) as [Hp Hpos].
+  destruct (lt_signed lt), o;
+    destruct (Z.ltb_spec mn 0), (Z.ltb_spec mx 0), (Z.ltb_spec a 0); lia.
+Qed.
+
+(* T (after f11c5d40d): for a logical type of the physical width, statistics in either order of that
+   width, bounds and values native: a pruned row group holds no passing value — no side condition *)
+Lemma prune_sound_same_width : forall lt pb o st cs vs,
+  0 < pb -> lt_bits lt = pb -> order_of_width pb o ->
+  stats_native pb st -> (forall w, In (Some w) vs -> native pb w) ->
+  should_prune lt st cs = Ok true ->
+  stats_describe o st vs ->
+  forall cell, In cell vs -> ~ passes lt cell cs.
+Proof.
+  intros lt pb o st cs vs Hb Hw Ho [Nmn Nmx] Nv Hp Hd cell Hin Hpass.
+  destruct (should_prune_true _ _ _ Hp) as (mn & mx & k & v & Hmn & Hmx & Hc & Hout & Hg).
+  destruct (Hpass _ Hc) as (w & k' & Hcell & Heq).
+  injection Heq as _ Hv. subst cell v.
+  destruct (Hd w Hin) as [Hlo Hhi].
+  specialize (Hlo _ Hmn). specialize (Hhi _ Hmx).
+  pose proof (guard_between lt pb o mn mx w Hb Hw Ho (Nmn _ Hmn) (Nmx _ Hmx) (Nv w Hin) Hg Hlo Hhi).
+  lia.
+Qed.
+
+(* the narrowing conversions (INT32 -> 8/16 bit logical types): what remains is that the bounds lie
+   in the range of the logical type (then the conversion is the identity between them) *)
+Lemma prune_sound_bounds_in_lrange : forall lt st cs vs,
+  0 < lt_bits lt -> stats_in_lrange lt st ->
+  should_prune lt st cs = Ok true ->
+  stats_describe OSigned st vs ->
+  forall cell, In cell vs -> ~ passes lt cell cs.
+Proof.
+  intros [bits sg] st cs vs Hb [Rmn Rmx] Hp Hd. cbn [lt_bits] in Hb.
+  apply (prune_sound (mk_lt bits sg) OSigned st cs vs Hp Hd).
+  unfold in_lrange in Rmn, Rmx; cbn [lt_signed lt_bits] in Rmn, Rmx. destruct sg.
+  - apply conv_monotone_signed; [exact Hb| |]; intros b Hbd; [apply (Rmn _ Hbd)|apply (Rmx _ Hbd)].
+  - apply conv_monotone_signed_on_unsigned_nonneg; [exact Hb| |]; intros b Hbd; [apply (Rmn _ Hbd)|apply (Rmx _ Hbd)].
+Qed.
+
+(* ... and that hypothesis is needed: an INT_8 column stored as INT32 with a (widened, inexact)
+   upper bound 300: 300 as i8 = 44, the guard 0 <= 44 passes, `a = 100` prunes the group holding 100 *)
+Definition i8 := mk_lt 8 true.
+Definition st_narrow : stats := mk_st (Some 0) (Some 300) true true false 0.
+Lemma prune_sound_narrowing_needs_range_refuted :
+  exists lt pb o st cs vs cell,
+    0 < pb /\ order_of_width pb o /\ stats_native pb st /\ (forall w, In (Some w) vs -> native pb w) /\
+    should_prune lt st cs = Ok true /\ stats_describe o st vs /\ In cell vs /\ passes lt cell cs.
+Proof.
+  exists i8, 32, OSigned, st_narrow, [CVal (KInt i8) 100], [Some 100], (Some 100).
+  split; [lia|]. split; [left; reflexivity|]. split; [|split; [|split; [|split; [|split]]]].
+  - split; intros b Hb; cbn in Hb; injection Hb as <-; unfold native; lia.
+  - intros w [H|[]]. injection H as <-. unfold native; lia.
+  - vm_compute. reflexivity.
+  - intros v [H|[]]. injection H as <-. split; intros b Hb; cbn in Hb; injection Hb as <-; cbn; lia.
+  - left; reflexivity.
+  - intros c [<-|[]]. exists 100, (KInt i8). split; [reflexivity|]. vm_compute. reflexivity.
+Qed.
+
+(* ---- the repaired defect (DESIGN §5-29), as a statement about the OLD definition: deprecated,
+   signed-order statistics of a UINT_32 row group {1, 3000000000, 7}: as INT32 the values are
+   1, -1294967296, 7, so min / max are -1294967296 / 7; the statistics are correct for the format,
+   the old code pruned the group for `a = 1`, and the group contains 1.  The current code does not
+   use these bounds at all. ---- *)
 Definition st_w29 : stats := mk_st (Some (-1294967296)) (Some 7) true true true 0.
 Definition vs_w29 : list (option Z) := [Some 1; Some (-1294967296); Some 7].
 
@@ -157,9 +265,9 @@ Lemma st_w29_from_thrift :
   from_thrift (mk_ts (Some 7) (Some (-1294967296)) (Some 0) None None) = Ok st_w29.
 Proof. vm_compute. reflexivity. Qed.
 
-Lemma prune_sound_unconditional_refuted :
+Lemma old_prune_sound_unconditional_refuted :
   exists lt o st cs vs cell,
-    should_prune lt st cs = Ok true /\ stats_describe o st vs /\ In cell vs /\ passes lt cell cs.
+    Old.should_prune lt st cs = Ok true /\ stats_describe o st vs /\ In cell vs /\ passes lt cell cs.
 Proof.
   exists u32, OSigned, st_w29, [CVal (KInt u32) 1], vs_w29, (Some 1).
   split; [vm_compute; reflexivity|]. split; [|split].
@@ -170,11 +278,23 @@ Proof.
   - intros c [<-|[]]. exists 1, (KInt u32). split; [reflexivity|]. vm_compute. reflexivity.
 Qed.
 
+Lemma w29_not_pruned_now : forall cs, should_prune u32 st_w29 cs = Ok false.
+Proof. intro cs. vm_compute. reflexivity. Qed.
+
 Lemma w29_not_monotone : ~ conv_monotone_on u32 OSigned st_w29.
 Proof.
   intro H. specialize (H _ _ eq_refl eq_refl (-1294967296) 1).
   cbn [okey] in H. assert (C : conv u32 (-1294967296) <= conv u32 1) by (apply H; lia).
   vm_compute in C. apply C. reflexivity.
+Qed.
+
+(* the guard only removes prunes: whatever the current code prunes, the old code pruned *)
+Lemma should_prune_implies_old : forall lt st cs,
+  should_prune lt st cs = Ok true -> Old.should_prune lt st cs = Ok true.
+Proof.
+  intros lt st cs. unfold should_prune, Old.should_prune.
+  destruct (negb _); [discriminate|]. destruct (st_min st); [|discriminate]. destruct (st_max st); [|discriminate].
+  destruct (_ >? _); [discriminate|]. exact (fun H => H).
 Qed.
 
 (* the remaining quirk of the loop: a NULL constant stops the scan of the constants, so the
@@ -183,6 +303,17 @@ Lemma null_constant_order_dependent :
   should_prune i32 st_ex [CVal (KInt i32) 7; CNull] = Ok true /\
   should_prune i32 st_ex [CNull; CVal (KInt i32) 7] = Ok false.
 Proof. split; vm_compute; reflexivity. Qed.
+
+(* the hypotheses of prune_sound_same_width are satisfiable, with mixed-sign-free deprecated bounds on u32 *)
+Definition st_ex_u : stats := mk_st (Some (-1294967296)) (Some (-5)) true true true 0.
+Example prune_sound_same_width_hyps_sat :
+  should_prune u32 st_ex_u [CVal (KInt u32) 7] = Ok true /\ stats_native 32 st_ex_u /\
+  stats_describe OSigned st_ex_u [Some (-1294967296); Some (-5)].
+Proof.
+  split; [vm_compute; reflexivity|]. split.
+  - split; intros b Hb; cbn in Hb; injection Hb as <-; unfold native; lia.
+  - intros v [H|[H|[]]]; injection H as <-; (split; intros b Hb; cbn in Hb; injection Hb as <-; cbn; lia).
+Qed.
 
 (* ------------------------------------------------------------------ scans *)
 Lemma filter_app_ : forall {A} (p : A -> bool) l1 l2, filter p (l1 ++ l2) = filter p l1 ++ filter p l2.
@@ -289,7 +420,8 @@ Proof.
     destruct (rgst c) as [st|]; [|exact IH].
     cbn [col_consts flat_map]. destruct (pr c) as [|lt]; cbn [col_should_prune]; [exact IH|].
     unfold should_prune. destruct (negb _); [exact IH|].
-    destruct (st_min st); [|exact IH]. destruct (st_max st); exact IH. }
+    destruct (st_min st); [|exact IH]. destruct (st_max st); [|exact IH].
+    destruct (_ >? _); exact IH. }
   induction f as [|g r IH]; cbn [scan_hinted]; [reflexivity|].
   rewrite N, IH. reflexivity.
 Qed.
@@ -326,6 +458,7 @@ Proof.
   intros lt st cs H. unfold should_prune.
   destruct (negb _); [discriminate|]. destruct (st_min st) as [mn|]; [|discriminate].
   destruct (st_max st) as [mx|]; [|discriminate].
+  destruct (_ >? _); [discriminate|].
   generalize (conv lt mn) (conv lt mx); intros a b.
   induction cs as [|c r IH]; cbn [prune_loop]; [discriminate|].
   destruct c as [|k v]; [discriminate|].
